@@ -861,8 +861,9 @@ def check_driver(prog, rep, kern, line, cs):
             ok3 = repr(at.args[0]) in (repr(Rat.atom(App('read', [D, rowv]))),) and at.args[1] == Rat.sym(s2[3].var)
         if s2[0] == 'fill' and at is not None and at.name == 'view' and at.args[0] == D and repr(rowv) in repr(at.args[1]):
             ok3 = True
+    # no store that saves a line of distances recognised at all: the save may be written in a way the rule does not read - undecided
     rep.add('X3', kern, entry, 'distances initialised to -1, saved per line, reloaded in the second pass', kern.node.lineno,
-            ok1 and ok2 and ok3, 'the second pass must start from the first pass\' distances (start -1: %s, saved after each pass: %s, '
+            (ok1 and ok2 and ok3) if saves else None, 'the second pass must start from the first pass\' distances (start -1: %s, saved after each pass: %s, '
             'reloaded: %s)' % (ok1, ok2, ok3))
     # ---- outputs after each sweep
     rets = [v for v, g in k.returns if isinstance(v, Arr)]
@@ -938,7 +939,8 @@ def check_driver(prog, rep, kern, line, cs):
                     nanfix = True
             except CannotEvaluate:
                 pass
-    rep.add('X5', kern, entry, 'unreached cells (distance < 0) become NaN', kern.node.lineno, nanfix,
+    rep.add('X5', kern, entry, 'unreached cells (distance < 0) become NaN', kern.node.lineno,
+            nanfix if (nanfix or any(s2_.loops[0] is p2 for jj, s2_ in saves)) else None,
             'a cell with no target within max_distance must be NaN (set after the last sweep of the line and before the line is saved)')
     init = len(outs_arr) == 1 and outs_arr[0].init == 'nan'
     rep.add('X5', kern, entry, 'allocation/direction image NaN-initialised', kern.node.lineno, init, 'cells without a target are NaN in all outputs')
